@@ -82,7 +82,7 @@ impl<'a, 'tcx> M<'a, 'tcx> {
         let tcx = self.tcx;
         let mut o = vec![
             ("id", J::s(&crate::def_id_str(tcx, def_id))),
-            ("def", J::s(&tcx.def_path_str(def_id))),
+            ("def", J::s(&crate::dpath(tcx, def_id))),
             ("path", J::s(&tcx.def_path_str_with_args(def_id, args))),
             ("gargs", J::Arr(args.iter().map(|a| J::s(&a.to_string())).collect())),
             ("local", J::Bool(def_id.is_local())),
@@ -110,7 +110,7 @@ impl<'a, 'tcx> M<'a, 'tcx> {
         if let Ok(Some(inst)) = Instance::try_resolve(tcx, self.env, def_id, args) {
             let rid = inst.def_id();
             if rid != def_id {
-                o.push(("resolved", J::s(&tcx.def_path_str(rid))));
+                o.push(("resolved", J::s(&crate::dpath(tcx, rid))));
                 o.push(("resolved_id", J::s(&crate::def_id_str(tcx, rid))));
                 o.push(("resolved_local", J::Bool(rid.is_local())));
                 o.push(("resolved_kind", J::s(&format!("{:?}", tcx.def_kind(rid)))));
